@@ -52,7 +52,7 @@ def chain_spec(ci, mi, docs, labels):
                 ops.append({"op": "compile", "c": 0, "of": i, "uri": "d%d.feature" % i, "attach": "copy"})
         ops.append({"op": "compile", "c": 0, "of": n - 1, "uri": "last.feature", "attach": "copy"})
         ops.append({"op": "compile", "c": 0, "of": 0, "uri": "first.feature", "attach": "set"})
-        ops.append({"op": "compile", "c": 0, "of": n - 1, "uri": "last.feature", "attach": "copy"})
+        ops.append({"op": "compile", "c": 0, "of": n - 1, "uri": "last.feature", "attach": "json"})
     return {"scenario": "reuse-enum", "prop": "C15", "labels": labels, "config": cfg["name"], "oracles": ORACLES,
             "cfg": {"flavour": cfg["flavour"], "salt": 0x5EED, "chunk_max": 3 if cfg["src"] == "path" else 0, "fs_seed": 7},
             "gens": 1, "fs": {"files": files}, "tasks": [task]}
@@ -114,7 +114,7 @@ def _gen_task(rng, gen_base, ngens, nops, files, tname, small=False):
         docs_ok = [i for i, o in enumerate(ops) if o["op"] == "parse" and parsers[o["p"]]["b"] != "tok"]
         if docs_ok and rng.random() < 0.25:
             ops.append({"op": "compile", "c": rng.randrange(len(compilers)), "of": docs_ok[rng.randrange(len(docs_ok))],
-                        "uri": "u%d.feature" % oi, "attach": "set" if rng.random() < 0.3 else "copy"})
+                        "uri": "u%d.feature" % oi, "attach": rng.choice(["set", "set", "set", "copy", "copy", "copy", "copy", "copy", "json", "json"])})
             labels.append("compile")
             continue
         mi = rng.randrange(len(matchers))
